@@ -335,7 +335,9 @@ CAExplained(h, nodes) ==
   \A a, b \in Node : \A x \in Committed(nodes[a]), y \in Committed(nodes[b]) :
      (x.idx = y.idx /\ x # y) => (x \in h.taint \/ y \in h.taint \/ h.lcx)
 CSExplained(h, nodes) == \A n \in Node : \A x \in h.ec[n] \ Committed(nodes[n]) : x \in h.taint \/ h.lcx
-LCExplained(h) == \A p \in h.missing : p[2] \in h.taint
+\* the missing entry is tainted, or the conflict AT ITS INDEX comes from a listed defect (some entry at that index is tainted:
+\* e.g. the new leader kept its own stale entry there below an entry it accepted without previous-entry check)
+LCExplained(h) == \A p \in h.missing : p[2] \in h.taint \/ \E x \in h.taint : x.idx = p[2].idx
 TrigFor(name, h, nodes) ==
   IF name = "CommitAgreement" /\ ~CAExplained(h, nodes) THEN {}
   ELSE IF name = "CommitStable" /\ ~CSExplained(h, nodes) THEN {}
